@@ -25,19 +25,24 @@ func TestMain(m *testing.M) { stats.Main(m) }
 // ---------------------------------------------------------------------------------------
 
 type Attempt struct {
-	Kind       string  `json:"kind"`                 // neterr | reject | stream
-	Stream     stats.B `json:"stream,omitempty"`     // body of a stream attempt
-	Chunks     []int   `json:"chunks,omitempty"`     // chunk sizes (cyclic); empty: one read
-	End        string  `json:"end,omitempty"`        // eof | err | cancel | deadline (how the body ends after Stream)
-	DelayMs    int     `json:"delayms,omitempty"`    // virtual delay before the transport answers
-	ReadMs     int     `json:"readms,omitempty"`     // virtual delay before each body read
-	HangMs     int     `json:"hangms,omitempty"`     // cancel: how long the last read blocks before the harness cancels
-	Filler     int     `json:"filler,omitempty"`     // number of 32-byte id-less filler events appended to Stream (so that one connection carries more than the scanner's buffer)
-	NoBodyResp bool    `json:"nobodyresp,omitempty"` // stream with an empty body ending in EOF: the response body is http.NoBody, as the real transport gives for Content-Length: 0
-	Status     int     `json:"status,omitempty"`     // stream: response status (0 = 200)
-	CT         string  `json:"ct,omitempty"`         // stream: Content-Type header ("" = text/event-stream, "none" = header absent); judged by DefaultValidator only
-	NoRead     bool    `json:"noread,omitempty"`     // neterr: the transport fails before reading the request body (a dial failure); it closes the body, as RoundTrippers must
-	ErrKind    string  `json:"errkind,omitempty"`    // neterr / End=err: "" plain | deadline | canceled: an error that LOOKS like a context error but does not come from the request's context (e.g. a dial or client timeout)
+	Kind    string  `json:"kind"`              // neterr | reject | stream
+	Stream  stats.B `json:"stream,omitempty"`  // body of a stream attempt
+	Chunks  []int   `json:"chunks,omitempty"`  // chunk sizes (cyclic); empty: one read
+	End     string  `json:"end,omitempty"`     // eof | err | cancel | deadline (how the body ends after Stream)
+	DelayMs int     `json:"delayms,omitempty"` // virtual delay before the transport answers
+	ReadMs  int     `json:"readms,omitempty"`  // virtual delay before each body read
+	HangMs  int     `json:"hangms,omitempty"`  // cancel: how long the last read blocks before the harness cancels
+	Filler  int     `json:"filler,omitempty"`  // number of 32-byte id-less filler events appended to Stream (so that one connection carries more than the scanner's buffer)
+	// Redirect != 0: the first request of this attempt is answered with that redirect status
+	// (301, 302, 303, 307, 308) and a Location; the real http.Client then re-issues the request
+	// (as a body-less GET for 301-303, with a fresh body from GetBody for 307/308) and THAT request
+	// is the attempt proper. Later reconnections must again be the original request.
+	Redirect   int    `json:"redirect,omitempty"`
+	NoBodyResp bool   `json:"nobodyresp,omitempty"` // stream with an empty body ending in EOF: the response body is http.NoBody, as the real transport gives for Content-Length: 0
+	Status     int    `json:"status,omitempty"`     // stream: response status (0 = 200)
+	CT         string `json:"ct,omitempty"`         // stream: Content-Type header ("" = text/event-stream, "none" = header absent); judged by DefaultValidator only
+	NoRead     bool   `json:"noread,omitempty"`     // neterr: the transport fails before reading the request body (a dial failure); it closes the body, as RoundTrippers must
+	ErrKind    string `json:"errkind,omitempty"`    // neterr / End=err: "" plain | deadline | canceled: an error that LOOKS like a context error but does not come from the request's context (e.g. a dial or client timeout)
 }
 
 type BackoffCfg struct {
@@ -131,6 +136,17 @@ type attemptObs struct {
 	hasBody  bool
 	unread   bool // the transport failed before reading the request body
 	kind     string
+	method   string
+	path     string
+}
+
+// hopObs is the first request of a redirected attempt.
+type hopObs struct {
+	attempt int
+	method  string
+	hdr     []string
+	body    string
+	hasBody bool
 }
 
 type retryObs struct {
@@ -141,6 +157,7 @@ type retryObs struct {
 
 type Trace struct {
 	attempts           []attemptObs
+	hops               []hopObs
 	retries            []retryObs
 	events             []sse.Event
 	eventAttempt       []int // index of the attempt during which each event was dispatched
@@ -216,6 +233,9 @@ func (a Attempt) readErr() error {
 }
 
 const requestBody = "request-body-0123456789"
+
+// redirectedPath is where redirected attempts are sent.
+const redirectedPath = "/redirected"
 
 // cancelMarker is the data of the event on which the consumer's callback cancels the request.
 const cancelMarker = "CANCEL-NOW"
@@ -404,6 +424,17 @@ func run(t *testing.T, sc Script, setup func(conn *sse.Connection, tr *Trace)) (
 			} else {
 				// the script is over: end the run by cancellation (DESIGN 5/C11)
 				a = Attempt{Kind: "scriptend"}
+			}
+			obs.method, obs.path = r.Method, r.URL.Path
+			if a.Redirect != 0 && r.URL.Path != redirectedPath {
+				hop := hopObs{attempt: k, method: r.Method, hdr: obs.hdr}
+				if r.Body != nil && r.Body != http.NoBody {
+					b, _ := io.ReadAll(r.Body)
+					hop.body, hop.hasBody = string(b), true
+					r.Body.Close()
+				}
+				tr.hops = append(tr.hops, hop)
+				return &http.Response{StatusCode: a.Redirect, Header: http.Header{"Location": {redirectedPath}}, Body: http.NoBody, Request: r}, nil
 			}
 			if r.Body != nil && r.Body != http.NoBody {
 				if a.Kind == "neterr" && a.NoRead {
